@@ -47,7 +47,20 @@ class Section:
 def parse_sidecar(path):
     secs = []
     cur = None
-    for ln, line in enumerate(open(path).read().split('\n'), 1):
+    lines_in = []
+    for line in open(path).read().split('\n'):
+        # `=== splice <file>`: the sections of another sidecar (up to its `=== end` / end of file) stand here -- units that share a prelude
+        # and a set of functions under contract state them once
+        if line.startswith('=== splice '):
+            inc = os.path.join(os.path.dirname(path), line.split()[2])
+            for l2 in open(inc).read().split('\n'):
+                if l2.split() == ['===', 'end']:
+                    break
+                if not l2.startswith('#!'):
+                    lines_in.append(l2)
+        else:
+            lines_in.append(line)
+    for ln, line in enumerate(lines_in, 1):
         if line.startswith('==='):
             parts = line[3:].split()
             if not parts:
